@@ -154,8 +154,8 @@ Lemma iter_pres {A} (Q : A -> Prop) (f : A -> A) n s : (forall x, Q x -> Q (f x)
 Proof. intros Hf Hs. induction n; cbn [Nat.iter nat_rect]; auto. Qed.
 
 Section Std.
-Variables sc cg cf : bool.
-Notation P0 := (stdp sc cg cf).
+Variables sc cg cf fr rc : bool.
+Notation P0 := (stdp sc cg cf fr rc).
 
 (* ---- RefCountingColl ---- *)
 Lemma add_Sv t j k : Sv (coll_add P0 t j) k = Sv t k + b2z (Nat.eqb j k).
@@ -928,9 +928,11 @@ Qed.
 (* 4. at the instant of closing (by either side, whatever happened before, also with a misbehaving peer):
       if the closing connection reaches its clear, every entry is gone *)
 Theorem close_releases_now ops b f k : closed (run P0 ops) = false -> close_reaches_clear P0 b f = true ->
-  closed (run P0 (ops ++ [Close b f])) = true /\ slot (run P0 (ops ++ [Close b f])) k = None.
+  closed (run P0 (ops ++ [Close b f])) = true /\ slot (run P0 (ops ++ [Close b f])) k = None /\
+  alive (run P0 (ops ++ [Close b f])) k = appref (run P0 (ops ++ [Close b f])) k.
 Proof.
-  intros Ho Hr. rewrite run_snoc. unfold step. rewrite Ho. unfold close, cleanup. cbn. rewrite Hr. cbn. now split.
+  intros Ho Hr. rewrite run_snoc. unfold step. rewrite Ho. unfold close, cleanup, alive. cbn. rewrite Hr. cbn.
+  repeat split. now rewrite !orb_false_r.
 Qed.
 (* ... and when lending through a closed connection is refused before boxing, nothing comes back afterwards *)
 Lemma step_closed_empty o s : sc = true -> closed s = true -> (forall k, slot s k = None) ->
@@ -946,6 +948,7 @@ Proof.
   rewrite run_app.
   assert (H0 : closed (run P0 (ops ++ [Close b f])) = true /\ forall j, slot (run P0 (ops ++ [Close b f])) j = None).
   { split; [apply (close_releases_now ops b f k Ho Hr)|]. intros j. apply (close_releases_now ops b f j Ho Hr). }
+  clear Ho.
   revert H0. generalize (run P0 (ops ++ [Close b f])). induction more as [|o r IH]; intros s [Hc Hs]; cbn [run_from fold_left].
   - split; [exact Hc|apply Hs].
   - apply IH. now apply step_closed_empty.
@@ -954,47 +957,84 @@ End Std.
 
 (* ---- witnesses: what breaks which clause ---- *)
 (* a raising call on the lent object: released, forgotten by its owner, and still alive (A._last_traceback) *)
-Theorem alive_exact_refuted sc cg cf : exists ops k,
-  Forall valid_op ops /\ closed (run (stdp sc cg cf) ops) = false /\
-  refs (qab (run (stdp sc cg cf) ops)) k = 0 /\ dels (qba (run (stdp sc cg cf) ops)) k = 0 /\
-  prox (run (stdp sc cg cf) ops) k = None /\ slot (run (stdp sc cg cf) ops) k = None /\
-  appref (run (stdp sc cg cf) ops) k = false /\ alive (run (stdp sc cg cf) ops) k = true.
+Theorem alive_exact_refuted sc cg cf fr rc : exists ops k,
+  Forall valid_op ops /\ closed (run (stdp sc cg cf fr rc) ops) = false /\
+  refs (qab (run (stdp sc cg cf fr rc) ops)) k = 0 /\ dels (qba (run (stdp sc cg cf fr rc) ops)) k = 0 /\
+  prox (run (stdp sc cg cf fr rc) ops) k = None /\ slot (run (stdp sc cg cf fr rc) ops) k = None /\
+  appref (run (stdp sc cg cf fr rc) ops) k = false /\ alive (run (stdp sc cg cf fr rc) ops) k = true.
 Proof.
   exists [SendSync [0]; Use 0 [] UBoom; Sync; Sync; DropAll 0; Sync; Sync; Forget 0]%nat, 0%nat.
   split; [repeat constructor|]. vm_compute. repeat split; reflexivity.
 Qed.
 (* a raising call at the peer: the peer application holds nothing, everything has been delivered, and the
    proxy lives on in B._last_traceback, so the owner's entry stays *)
-Theorem release_after_drop_refuted sc cg cf : exists ops k,
-  Forall valid_op ops /\ closed (run (stdp sc cg cf) ops) = false /\
-  let s := run (stdp sc cg cf) (ops ++ [Sync; Sync] ++ map DropAll [k] ++ [Sync]) in
+Theorem release_after_drop_refuted sc cg cf fr rc : exists ops k,
+  Forall valid_op ops /\ closed (run (stdp sc cg cf fr rc) ops) = false /\
+  let s := run (stdp sc cg cf fr rc) (ops ++ [Sync; Sync] ++ map DropAll [k] ++ [Sync]) in
   closed s = false /\ qab s = [] /\ qba s = [] /\ holds s k = O /\ prox s k = Some 1 /\ slot s k = Some 0.
 Proof.
   exists [SendRaise [0]]%nat, 0%nat. split; [repeat constructor|]. vm_compute. repeat split; reflexivity.
 Qed.
 (* the key of a lent object changes: its release notice raises KeyError at the owner and the entry is never released *)
-Theorem unstable_key_refuted sc cg cf : exists ops k,
+Theorem unstable_key_refuted sc cg cf fr rc : exists ops k,
   Forall valid_op ops /\
-  let s := run (stdp sc cg cf) (ops ++ [Morph k; DropAll k; Sync; Sync]) in
+  let s := run (stdp sc cg cf fr rc) (ops ++ [Morph k; DropAll k; Sync; Sync]) in
   closed s = false /\ qba s = [] /\ prox s k = None /\ holds s k = O /\ errs s = 1%nat /\ slot s k = Some 0.
 Proof.
   exists [SendSync [0]]%nat, 0%nat. split; [repeat constructor|]. vm_compute. repeat split; reflexivity.
 Qed.
 (* lending through a closed connection that does not refuse before boxing: an entry that nothing will release *)
-Theorem close_stays_released_refuted cg cf : exists ops more k,
-  Forall valid_op (ops ++ Close false FNone :: more) /\ closed (run (stdp false cg cf) ops) = false /\
-  slot (run (stdp false cg cf) (ops ++ [Close false FNone])) k = None /\
-  closed (run (stdp false cg cf) (ops ++ Close false FNone :: more)) = true /\
-  slot (run (stdp false cg cf) (ops ++ Close false FNone :: more)) k = Some 0.
+Theorem close_stays_released_refuted cg cf fr rc : exists ops more k,
+  Forall valid_op (ops ++ Close false FNone :: more) /\ closed (run (stdp false cg cf fr rc) ops) = false /\
+  slot (run (stdp false cg cf fr rc) (ops ++ [Close false FNone])) k = None /\
+  closed (run (stdp false cg cf fr rc) (ops ++ Close false FNone :: more)) = true /\
+  slot (run (stdp false cg cf fr rc) (ops ++ Close false FNone :: more)) k = Some 0.
 Proof.
   exists [SendSync [0]]%nat, [Send [0]]%nat, 0%nat. split; [repeat constructor|]. vm_compute. repeat split; reflexivity.
 Qed.
 (* a raising on_disconnect when the clear is not guarded; a raising before_closed hook when _cleanup is not in a finally *)
-Theorem close_releases_refuted_disc sc cf : exists ops b k,
-  closed (run (stdp sc false cf) ops) = false /\ closed (run (stdp sc false cf) (ops ++ [Close b FDisc])) = true /\
-  slot (run (stdp sc false cf) (ops ++ [Close b FDisc])) k = Some 0.
+Theorem close_releases_refuted_disc sc cf fr rc : exists ops b k,
+  closed (run (stdp sc false cf fr rc) ops) = false /\ closed (run (stdp sc false cf fr rc) (ops ++ [Close b FDisc])) = true /\
+  slot (run (stdp sc false cf fr rc) (ops ++ [Close b FDisc])) k = Some 0.
 Proof. exists [SendSync [0]]%nat, false, 0%nat. vm_compute. repeat split; reflexivity. Qed.
-Theorem close_releases_refuted_hook sc cg : exists ops k,
-  closed (run (stdp sc cg false) ops) = false /\ closed (run (stdp sc cg false) (ops ++ [Close false FHook])) = true /\
-  slot (run (stdp sc cg false) (ops ++ [Close false FHook])) k = Some 0.
+Theorem close_releases_refuted_hook sc cg fr rc : exists ops k,
+  closed (run (stdp sc cg false fr rc) ops) = false /\ closed (run (stdp sc cg false fr rc) (ops ++ [Close false FHook])) = true /\
+  slot (run (stdp sc cg false fr rc) (ops ++ [Close false FHook])) k = Some 0.
 Proof. exists [SendSync [0]]%nat, 0%nat. vm_compute. repeat split; reflexivity. Qed.
+
+(* ---- situations the theorems exclude: what the generated facts decide ---- *)
+(* a call whose arguments cannot all be boxed / encoded: harmless when what _box registered is given back *)
+Theorem failed_send_harmless sc cg cf rc s ks : closed s = false -> step (stdp sc cg cf true rc) (SendFail ks) s = s.
+Proof. intros H. unfold step. rewrite H. reflexivity. Qed.
+Theorem failed_reply_harmless sc cg cf rc s c r k : closed s = false ->
+  slot (step (stdp sc cg cf true rc) (ReplyFail c r) s) k =
+  slot (sync (stdp sc cg cf true rc) (sync (stdp sc cg cf true rc) s)) k.
+Proof. intros H. unfold step. rewrite H. unfold reply_fail. destruct (_ && _); reflexivity. Qed.
+(* ... and a leak on an open, healthy connection when it is not: nothing in flight, no proxy, entry present *)
+Theorem failed_send_refuted sc cg cf rc : exists ops k,
+  let s := run (stdp sc cg cf false rc) (ops ++ [Sync; Sync] ++ map DropAll [k] ++ [Sync]) in
+  closed s = false /\ qab s = [] /\ qba s = [] /\ prox s k = None /\ holds s k = O /\ errs s = O /\ slot s k = Some 0.
+Proof. exists [SendFail [0]]%nat, 0%nat. vm_compute. repeat split; reflexivity. Qed.
+Theorem failed_reply_refuted sc cg cf rc : exists ops k,
+  let s := run (stdp sc cg cf false rc) (ops ++ [Sync; Sync] ++ map DropAll [k] ++ [Sync; Sync]) in
+  closed s = false /\ qab s = [] /\ qba s = [] /\ prox s k = None /\ holds s k = O /\ errs s = O /\ slot s k = Some 0.
+Proof. exists [SendSync [0]; ReplyFail 0 0]%nat, 0%nat. vm_compute. repeat split; reflexivity. Qed.
+(* a reference the peer consumed without producing a proxy (the unboxing of a sibling failed) is never given back *)
+Theorem lost_reference_refuted sc cg cf fr rc : exists ops k,
+  let s := run (stdp sc cg cf fr rc) (ops ++ [Sync; Sync] ++ map DropAll [k] ++ [Sync]) in
+  closed s = false /\ qab s = [] /\ qba s = [] /\ prox s k = None /\ holds s k = O /\ errs s = O /\ slot s k = Some 0.
+Proof. exists [SendBadSibling [0]]%nat, 0%nat. vm_compute. repeat split; reflexivity. Qed.
+(* a callee that closes the owner's connection and then returns an object by reference *)
+Theorem close_in_callee_releases sc cg cf fr s c r k : closed s = false ->
+  closed (step (stdp sc cg cf fr true) (CloseInCallee c r) s) = true ->
+  slot (step (stdp sc cg cf fr true) (CloseInCallee c r) s) k = None.
+Proof.
+  intros H. unfold step. rewrite H. unfold close_in_callee. destruct (_ && _); cbn.
+  - reflexivity.
+  - rewrite !sync_closed. congruence.
+Qed.
+Theorem close_in_callee_refuted sc cg cf fr : exists ops k,
+  Forall valid_op ops /\ closed (run (stdp sc cg cf fr false) ops) = false /\
+  closed (run (stdp sc cg cf fr false) (ops ++ [CloseInCallee k k])) = true /\
+  slot (run (stdp sc cg cf fr false) (ops ++ [CloseInCallee k k])) k = Some 0.
+Proof. exists [SendSync [0]]%nat, 0%nat. split; [repeat constructor|]. vm_compute. repeat split; reflexivity. Qed.
